@@ -8,6 +8,7 @@ from vlib.machine import Machine, history, snap, snap_diff, is_inplace, MAX_LEN
 from ansi_string import AnsiString, AnsiStr
 from ansi_string.ansi_format import AnsiSetting
 
+QUICK_SCALE = 1.5
 RULE = ('histories: 2-3 initial values (AnsiString and AnsiStr) followed by 3-12 (quick) / up to 30 (thorough) public operations; '
         'every operation in in-place and non-in-place form; binary operations between any two live values including a value with '
         'itself; replace with a live value as replacement; results join the live set, so results and sources are mutated later. '
